@@ -3,6 +3,7 @@
 #include <rapidcheck.h>
 #include "hist.hpp"
 #include <sys/stat.h>
+#include <signal.h>
 #include <functional>
 
 static std::vector<std::string> read_catalogue() { Quiet q; MASA::masa_printid<double>(); std::vector<std::string> out; std::stringstream ss(q.str()); std::string l; int bars = 0;
@@ -37,7 +38,8 @@ static std::vector<std::string> catalogue_for(const std::string &prop, const Pro
 // the history that caused it while the parent goes on (and shrinks).
 struct Forked { std::map<std::string, long> cls; std::vector<Failure> fails; std::vector<std::string> trace; int step = 0; long evals = 0; int signal = 0; bool ok = false; };
 static Forked run_forked(const std::vector<Op> &ops, const HistConfig &cfg) { Forked R; int pfd[2]; if (pipe(pfd) != 0) return R; fflush(stderr); pid_t pid = fork();
-  if (pid == 0) { close(pfd[0]); History H; H.cfg = cfg;
+  if (pid == 0) { close(pfd[0]); alarm(300);   /* a child that hangs (e.g. a deadlock after heap corruption) must not block the campaign; SIGALRM is counted as inconclusive, not as a failure */
+    History H; H.cfg = cfg;
     // the child must never return into rapidcheck: a fatal error escaping the interpreter (e.g. from an audit after the library damaged its own registry) is a failure of this history
     try { H.run(ops); } catch (int e) { H.fail(cfg.escape_prop.empty() ? "C16" : cfg.escape_prop, "the fatal error (" + std::to_string(e) + ") was raised by a call that is legal at this point of the history: " + (H.trace.empty() ? std::string("?") : H.trace.back())); } catch (...) { H.fail(cfg.escape_prop.empty() ? "C16" : cfg.escape_prop, "an unexpected exception escaped from the library"); }
     std::string o; o += "S " + std::to_string(H.step) + " " + std::to_string(H.evals) + "\n";
@@ -61,6 +63,7 @@ static bool nontrivial(const std::string &prop, std::map<std::string, long> &c) 
   if (prop == "C12") return c["op:init"] + c["op:c:init"] >= 3 && c["reinit_existing_handle"] > 0 && c["two_handles_same_type"] > 0;
   if (prop == "C15") return c["eval_unprovided"] >= 3;
   if (prop == "C16") return c["op:fatal-misuse"] >= 1 && c["fatal:after_nonempty_prefix"] >= 1;
+  if (prop == "C19") return c["reinit_existing_handle"] > 0 && (c["vector_length_change"] + c["c_set_array"]) > 0;
   if (prop == "C17") return (c["c_set"] + c["c_get"] + c["c_eval_provided"] + c["c_set_array"] + c["c_get_name"]) >= 3 && (c["op:set_param"] + c["op:init"] + c["op:set_vec"]) >= 1;
   return true; }
 
@@ -113,11 +116,12 @@ int main(int argc, char **argv) {
     write_file(faildir + "/current.case", history_to_text(ops, prop));
     if (dump_n > 0 && (int)st.counters["dumped"] < dump_n && ops.size() >= 5) { write_file(dump_dir + "/case_" + std::to_string(st.counters["dumped"]) + ".case", history_to_text(ops, prop)); st.count("dumped"); }
     HistConfig cfg; cfg.escape_prop = prop; cfg.catalogue = use; cfg.check_fresh = pf.fresh; cfg.audit_every_step = pf.audit; cfg.fatal_mode = fatal_mode; Forked H = run_forked(ops, cfg);
+    if (H.signal == SIGALRM) { st.count("inconclusive_child_timeouts"); return; }
     if (H.signal || !H.ok) { Failure f; f.prop = prop; f.step = -1; f.msg = "the library ended the process while executing this history (" + std::string(H.signal >= 1000 ? "exit status " + std::to_string(H.signal - 1000) : "signal " + std::to_string(H.signal)) + ")"; H.fails.push_back(f); st.count("crashed_histories"); }
     st.count("cases"); st.count("steps", H.step); st.count("evaluations", H.step); st.count("evaluator_calls", H.evals);
     for (auto &kv : H.cls) st.count("class:" + kv.first, kv.second); if (ops.size() >= 20) st.count("class:H:length>=20");
     bool nt = nontrivial(prop, H.cls); if (nt) { st.count("class:H:nontrivial"); Hasher h; for (auto &o : ops) h.str(op_to_text(o)); st.distinct.insert(h.h); }
-    if (nt && st.samples.size() < st.max_samples && st.counters["cases"] % 37 == 1) { std::string j = "{\"history\":["; for (size_t i = 0; i < H.trace.size() && i < 40; i++) j += std::string(i ? "," : "") + "\"" + jesc(H.trace[i]) + "\""; st.sample(j + "],\"steps\":" + std::to_string(H.step) + "}"); }
+    if (nt && H.trace.size() >= 3 && st.samples.size() < st.max_samples && st.counters["cases"] % 37 == 1) { std::string j = "{\"history\":["; for (size_t i = 0; i < H.trace.size() && i < 40; i++) j += std::string(i ? "," : "") + "\"" + jesc(H.trace[i]) + "\""; st.sample(j + "],\"steps\":" + std::to_string(H.step) + "}"); }
     const Failure *mine = nullptr; for (auto &fl : H.fails) { if (fl.prop == prop) mine = &fl; else st.count("other_property_failures:" + fl.prop); }
     if (mine) { std::string note = "step " + std::to_string(mine->step) + ": " + mine->msg; write_file(faildir + "/fail_" + prop + ".case", history_to_text(ops, prop, note)); write_file(faildir + "/fail_" + prop + ".txt", note); if (budget < 0) budget = 600; RC_FAIL(note); } };
   auto result = rc::detail::checkTestable(fn, md, tp);
